@@ -581,7 +581,7 @@ impl Check for C14 {
             cfg.max_data_width = 3;
             cfg.max_index_width = 2;
         }
-        let prefix = *rng.pick(&["", "v_", "a b ", "x$y:", "0", "[3]#", "ü", "sig."]);
+        let prefix = *rng.pick(&["", "v_", "#x", "a b ", "x$y:", "0", "[3]#", "ü", "sig."]);
         let (e, _) = {
             let mut g = ExprGen::new(&mut rng, cfg);
             g.sym_prefix = prefix.to_string();
